@@ -7,5 +7,16 @@ def check(tier):
     sat, cases = classlemmas.run_queries(chk, ["emit", "def"])
     for c, k, m in sat:
         classlemmas.replay_sat(chk, c, k, m)
-    chk.ev.coverage["explanation"] = "placeholder"
+    chk.ev.coverage["functions_encoded"] = [{"fn": "unstructure_<Class> and structure_<Class> (cattrs-generated from attrs.fields, _to_camel_case, _omit / is_special_property) for %d classes" % len(cases)}]
+    chk.ev.coverage["bounds"] = {"attributes": "every attribute of every class simultaneously set/unset (all 2^n none-vectors), no bound", "values": "abstracted to {None, equals-default, other}"}
+    chk.ev.coverage["outside_bounds"] = ["behaviour of the per-attribute unstructure handlers (trusted cattrs machinery)"]
+    chk.ev.coverage["rule"] = "two z3 queries per class: Q-emit (a none-vector whose emitted key set differs from `set, or null-admitting, or literal, or envelope`) and Q-def (an absent special key that raises or does not read as None / its literal); unsat = discharged"
+    chk.ev.coverage["distinct_nontrivial"] = sum(1 for c in cases if any(classlemmas.p_special(p) or p.get("optional") for p in c.props.values()))
+    for c in cases[:3]:
+        chk.ev.sample({"class": c.name, "emits": {w: {"attr": e[0], "conditional": e[1]} for w, e in list(c.um.emits.items())[:6]}, "special_per_spec": [w for w, p in c.props.items() if classlemmas.p_special(p)]})
+    chk.ev.coverage["explanation"] = (
+        "The source text cattrs generates for every class (read back from linecache on this run, so it reflects the current _to_camel_case, _omit, _SPECIAL_PROPERTIES, defaults and annotations) is translated "
+        "statement by statement into z3: `if instance.a != default: res[w] = ...` becomes emitted(w) <=> not eqdefault(a). For each class z3 is asked for an assignment of None / not-None to all attributes at once under which "
+        "some key's emission differs from the rule computed from lsp.json (null-admitting, string literal, envelope method/jsonrpc/result => always; otherwise iff set), and for an absent special key that is not accepted as None / its literal."
+    )
     return chk.finish()
